@@ -632,7 +632,7 @@ func verifExpand(vars map[string][]string, s string, depth int) ([]string, error
 
 func TestVerifDynamic(t *testing.T) {
 	vars := map[string][]string{"a": {"x", "y"}, "b": {"@{a}/1", "z"}, "c": {"/r/", "/s"}, "e": {"m", "n", "o"}, "f": {"@{g}/x"}, "g": {"@{h}/y", "/w"}, "h": {"/z"}, "A": {"UP"}, "lib32": {"/usr/lib32"}, "x_2y": {"q", "r"}}
-	inputs := []string{"@{f}", "/opt/@{f}/bin", "@{A}/@{a}", "@{E}", "/lit//eral", "@{a}", "/p/@{a}", "@{a}/@{a}", "@{b}", "@{c}/q", "@{a}@{c}", "@{b}/@{a}", "/no/var", "@{c}@{c}", "@{e}", "/@{e}/@{a}/@{e}", "@{nope}/x", "@{a}/@{nope}", "@{s}", "@{lib32}/ld.so", "/k/@{x_2y}@{a}"}
+	inputs := []string{"@{f}", "/opt/@{f}/bin", "@{A}/@{a}", "@{E}", "/lit//eral", "@{a}", "/p/@{a}", "@{a}/@{a}", "@{b}", "@{c}/q", "@{a}@{c}", "@{b}/@{a}", "/no/var", "@{c}@{c}", "@{e}", "/@{e}/@{a}/@{e}", "@{nope}/x", "@{a}/@{nope}", "@{s}", "@{lib32}/ld.so", "/k/@{x_2y}@{a}", "@{bin}/foo", "@{lib}/@{a}", "/x@{run}"}
 	evals, viol := 0, 0
 	first := ""
 	for _, in := range inputs {
@@ -675,8 +675,8 @@ func TestVerifDynamic(t *testing.T) {
 `
 	r := runDynamic(env, "pkg/aa", "C13/expansion-of-attachments", src)
 	r.Name = "bounded/C13/expansion-of-attachments"
-	r.Kind, r.Backend = "bounded", "go test, 21 attachment patterns over an eleven-variable preamble"
-	r.Detail = strings.Replace(r.Detail, "dynamic (not a proof)", "bounded stand-in (not a proof; 21 attachment patterns: forward reference chains, names with digits and underscores, names differing by case, literal //, nested, repeated and adjacent references, trailing slashes, +=, undefined and self-referential variables)", 1)
+	r.Kind, r.Backend = "bounded", "go test, 24 attachment patterns over an eleven-variable preamble"
+	r.Detail = strings.Replace(r.Detail, "dynamic (not a proof)", "bounded stand-in (not a proof; 24 attachment patterns: forward reference chains, names with digits and underscores, names of shipped tunables that the file does not define (an error, not a silent default), names differing by case, literal //, nested, repeated and adjacent references, trailing slashes, +=, undefined and self-referential variables)", 1)
 	return r
 }
 
